@@ -1133,7 +1133,7 @@ def run(chk):
                 continue
             crash_suite(chk, w["script"], w["Ks"], base, "corpus")
         # ---- 2. statement-trace suite
-        n_tr = 30 if quick else 200
+        n_tr = 24 if quick else 200
         scripts = [gen_script(rng, rng.randint(8, 16)) for _ in range(n_tr)] + FIXED_CRASH_SCRIPTS
         nops = trace_suite(chk, scripts, base=base)
         # ---- 3. crash replay
@@ -1151,7 +1151,12 @@ def run(chk):
                 Ks = set([1, 2, n, n + 1] + [rng.randint(1, n) for _ in range(8)]
                          + [rng.randint(max(1, n // 2), n) for _ in range(6)])
                 if ci == TARGETED_SCRIPT:
-                    tk = step_windows(sc, acks, TARGETED_KINDS)
+                    # every I/O call inside DELETE / RENAME; every second one inside the other targeted
+                    # operations (each autocommit statement or transaction commits with >= 5 I/O calls and
+                    # every crash point between two commit points recovers to the same state, so every
+                    # statement boundary is still hit)
+                    tk = step_windows(sc, acks, ("rename", "delete"))
+                    tk |= set(k for k in step_windows(sc, acks, TARGETED_KINDS) if k % 2 == 0)
                     chk.cov["targeted_crash_points"] = len(tk)
                     Ks |= tk
                 Ks = sorted(Ks)
